@@ -16,8 +16,14 @@ MUTANTS = [
     M("populate-after-yield-path", X + "open_office/odg_extractor.py", "        metadata.populate_from_path(path)\n        yield OdgContent(", "        if images:\n            metadata.populate_from_path(path)\n        yield OdgContent(", "C04-META"),
     M("populate-none-guard-dropped", D, "        if path is None:\n            return\n        p = Path(path)", "        p = Path(path or \"\")", "C04-META"),
     M("element-truth-test", SH, "    if creator is not None and creator.text:", "    if creator and creator.text:", "C04-TRUTH"),
+    M("xls-metadata-utf8-strict", "sharepoint2text/parsing/extractors/ms_legacy/xls_extractor.py", "            author=decode_ole_string(meta.author, codepage),", "            author=meta.author.decode(\"utf-8\") if meta.author else \"\",", "C04-PROP"),
+    M("doc-metadata-fixed-cp1252", "sharepoint2text/parsing/extractors/ms_legacy/doc_extractor.py", "                return decode_ole_string(val, codepage)", "                return decode_ole_string(val, 1252)", "C04-PROP"),
+    M("ole-decoder-strict", "sharepoint2text/parsing/extractors/util/ole_metadata.py", "        return value.decode(ole_codec(codepage), errors=\"replace\")", "        return value.decode(ole_codec(codepage))", "C04-PROP"),
+    M("odf-first-keyword-only", "sharepoint2text/parsing/extractors/open_office/_shared.py", "    keywords = [k.text for k in meta_elem.findall(\"meta:keyword\", ns) if k.text]\n    if keywords:\n        metadata.keywords = \", \".join(keywords)\n", "    keywords = meta_elem.find(\"meta:keyword\", ns)\n    if keywords is not None and keywords.text:\n        metadata.keywords = keywords.text\n", "C04-PROP"),
+    M("epub-first-creator-only", "sharepoint2text/parsing/extractors/epub_extractor.py", "        self._metadata.creator = get_dc_all(\"creator\")", "        self._metadata.creator = get_dc(\"creator\")", "C04-PROP"),
 ]
 TWINS = [
+    T("ppt-metadata-codepage-local", "sharepoint2text/parsing/extractors/ms_legacy/ppt_extractor.py", "                    codepage_doc if field in doc_summary_fields else codepage,", "                    (codepage_doc if field in doc_summary_fields else codepage),"),
     T("caption-or-empty", X + "open_office/odt_extractor.py", "        caption = title_elem.text if title_elem is not None and title_elem.text else \"\"\n        if not caption and name:", "        caption = (title_elem.text if title_elem is not None else None) or \"\"\n        if not caption and name:"),
 ]
 
